@@ -140,6 +140,8 @@ class Live(JupyterMixin, RenderHook):
             if self._started:
                 return
 
+            # a display that is started again must not erase what an earlier run left on screen
+            self._live_render._shape = None
             self.console.show_cursor(False)
             self._enable_redirect_io()
             self.console.push_render_hook(self)
@@ -159,9 +161,13 @@ class Live(JupyterMixin, RenderHook):
                 if self.auto_refresh and self._refresh_thread is not None:
                     self._refresh_thread.stop()
                 # allow it to fully render on the last even if overflow
+                vertical_overflow = self.vertical_overflow
                 self.vertical_overflow = "visible"
-                if not self.console.is_jupyter:
-                    self.refresh()
+                try:
+                    if not self.console.is_jupyter:
+                        self.refresh()
+                finally:
+                    self.vertical_overflow = vertical_overflow
                 if self.console.is_terminal:
                     self.console.line()
             finally:
